@@ -215,6 +215,7 @@ void exec_parser(const ExecOp& op, Outcome& out)
             with_buffer(*p, op, out);
     }
     catch (const std::bad_alloc&) { simrt::end_op(); out.exc = 1; }
+    catch (const std::bad_variant_access& e) { simrt::end_op(); out.exc = 5; out.exc_what = e.what(); }
     catch (const simrt::BudgetExceeded&) { simrt::end_op(); out.exc = 2; }
     catch (const std::exception& e) { simrt::end_op(); out.exc = 3; out.exc_what = e.what(); }
     catch (...) { simrt::end_op(); out.exc = 4; }
@@ -298,6 +299,7 @@ void exec_matcher(const ExecOp& op, Outcome& out)
         }
     }
     catch (const std::bad_alloc&) { simrt::end_op(); out.exc = 1; }
+    catch (const std::bad_variant_access& e) { simrt::end_op(); out.exc = 5; out.exc_what = e.what(); }
     catch (const simrt::BudgetExceeded&) { simrt::end_op(); out.exc = 2; }
     catch (const std::exception& e) { simrt::end_op(); out.exc = 3; out.exc_what = e.what(); }
     catch (...) { simrt::end_op(); out.exc = 4; }
